@@ -25,8 +25,8 @@ import (
 	"go.brendoncarroll.net/p2p/s/p2pkeswarm"
 	"go.brendoncarroll.net/p2p/s/quicswarm"
 	"go.brendoncarroll.net/p2p/s/sshswarm"
-	"go.brendoncarroll.net/p2p/s/wlswarm"
 	"go.brendoncarroll.net/p2p/s/udpswarm"
+	"go.brendoncarroll.net/p2p/s/wlswarm"
 	realssh "golang.org/x/crypto/ssh"
 	evilssh "verifharness/evilssh"
 )
@@ -359,6 +359,24 @@ func sshHonestCase(r *rand.Rand, bad func(string, ...any)) int {
 	wrong.Fingerprint = realssh.FingerprintSHA256(sc.PublicKey())
 	if err := a.Tell(ctx, wrong, p2p.IOVec{[]byte("for-c-only")}); err == nil {
 		bad("C04 sshswarm: Tell to identity C at B's address reported success")
+	}
+	// identities that no key has, shaped like B's own: a suffix of its fingerprint (with and without the hash name),
+	// a prefix, the empty identity, the digest in another case: none of them names B
+	fpB := addrB.Fingerprint
+	digest := strings.TrimPrefix(fpB, "SHA256:")
+	for _, id := range []string{digest, digest[1:], "SHA256:" + digest[len(digest)/2:], digest[len(digest)-6:], fpB[:len(fpB)-1], "", strings.ToLower(fpB), fpB + "A"} {
+		if id == fpB {
+			continue
+		}
+		w := addrB
+		w.Fingerprint = id
+		wctx, wcf := context.WithTimeout(context.Background(), 700*time.Millisecond)
+		err := a.Tell(wctx, w, p2p.IOVec{[]byte("for-c-only")})
+		wcf()
+		if err == nil {
+			bad("C04 sshswarm: Tell to identity %q at B's address reported success; B's identity is %q", id, fpB)
+			break
+		}
 	}
 	fpA := realssh.FingerprintSHA256(sa.PublicKey())
 	timeout := time.After(time.Second)
